@@ -199,8 +199,8 @@ def boundary_tables(rng, T, gamma, feats):
         feats.append("tiny_reward_gaps")
 
 
-def gen_base(rng, nmax, list_actions=False, used=False, min_states=2):
-    T = gen_tables(rng, nmax, min_states=min_states)
+def gen_base(rng, nmax, list_actions=False, used=False, min_states=2, nA=None, n=None):
+    T = gen_tables(rng, nmax, min_states=min_states, nA=nA, n=n)
     tabular = used or rng.random() < .7
     style = "quick" if rng.random() < .3 else "table"
     if style == "quick":
@@ -232,11 +232,11 @@ def gen_base(rng, nmax, list_actions=False, used=False, min_states=2):
     return base
 
 
-def eff_tables(case):
-    """tables of the MDP an option of a run case is executed on (the base, or an MDP derived from it)"""
-    T = case["base"]["tables"]
+def eff_tables(case, bidx=0):
+    """tables of the MDP an option of a run case is executed on (base number bidx, or for bidx 0 possibly an MDP derived from it)"""
+    T = case_bases(case)[bidx]["tables"]
     df = case.get("derive_first")
-    if not df:
+    if not df or bidx != 0:
         return T
     m = {"next_state_dist": "trans", "reward": "rew", "is_absorbing": "absorbing", "initial_state_dist": "init", "actions": "actions"}
     T = dict(T)
@@ -304,6 +304,34 @@ def gen_used(rng, tier):
     return {"kind": "used", "base": base, "alt": alt, "derive": derive}
 
 
+def gen_more_bases(rng, base, count, list_actions=False, same_n=False):
+    """further base MDPs the SAME option objects are executed on afterwards: other rewards, other dynamics ("walls"),
+    other absorbing sets, other sizes, other discount holders; action sets agree on the states they share (the option
+    policy is one table), labels agree (same objects must understand the same state names)"""
+    T = base["tables"]
+    out = []
+    for _ in range(count):
+        b = gen_base(rng, 5, list_actions=list_actions, min_states=1, nA=T["nA"], n=T["n"] if same_n else None)
+        for s_ in range(min(T["n"], b["tables"]["n"])):
+            b["tables"]["actions"][s_] = list(T["actions"][s_])
+        b["labels"] = base["labels"]
+        out.append(b)
+    return out
+
+
+def merged_tables(bases):
+    """state count and per-state action sets over all the bases of a case (for generating ONE option table)"""
+    N = max(b["tables"]["n"] for b in bases)
+    acts = []
+    for s_ in range(N):
+        acts.append(next(list(b["tables"]["actions"][s_]) for b in bases if s_ < b["tables"]["n"]))
+    return {"n": N, "nA": bases[0]["tables"]["nA"], "actions": acts}
+
+
+def case_bases(case):
+    return [case["base"]] + list(case.get("more_bases") or [])
+
+
 def gen_option(rng, T, max_steps, term_p=.4):
     n = T["n"]
     pol = []
@@ -322,18 +350,30 @@ def gen_option(rng, T, max_steps, term_p=.4):
 def gen_run(rng, tier):
     base = gen_base(rng, 5, min_states=1)
     T = base["tables"]
-    opt = gen_option(rng, T, 0, term_p=rng.choice([0., .2, .4, .6]))
-    s0 = rng.randrange(T["n"])
+    # the SAME option object is afterwards executed on one or two OTHER base MDPs (and then on the first again)
+    planned = base["tabular"] and rng.random() < .15      # a PlanToSubgoalOption with a ValueIteration policy instead of a SimpleOption
+    more = gen_more_bases(rng, base, rng.choice([0, 1, 1, 2]), same_n=planned) if rng.random() < .6 else []
+    if planned:
+        for b_ in [base] + more:
+            if not b_["tabular"] or b_["lists"]["where"] == "inferred":
+                b_["tabular"] = True
+                b_["lists"] = {"where": "inst", "state_list": list(range(b_["tables"]["n"])), "action_list": list(range(T["nA"]))}
+    bases = [base] + more
+    M = merged_tables(bases)
+    opt = gen_option(rng, M, 0, term_p=rng.choice([0., .2, .4, .6]))
+    s0s = [rng.randrange(b_["tables"]["n"]) for b_ in bases]
     if rng.random() < .1:
-        opt["terminal"][s0] = True             # started in a state that is already terminal for it
+        opt["terminal"][s0s[0]] = True         # started in a state that is already terminal for it
     derive_first = None
-    if rng.random() < .35:
+    if rng.random() < .35 and not planned:
         # the option is run on a DERIVED MDP (Option.run_on augments an augmented MDP)
         derive_first = {"keys": rng.sample(["next_state_dist", "reward", "is_absorbing", "initial_state_dist"], rng.randint(1, 3)),
                         "alt": gen_tables(rng, 5, n=T["n"], nA=T["nA"], min_states=1)}
         if base["lists"] and base["lists"]["where"] == "inferred":
             base["lists"]["where"] = "inst"    # overridden dynamics may leave an INFERRED (reachable-only) state list: keep it explicit here
-    return {"kind": "run", "base": base, "option": opt, "s0": s0, "derive_first": derive_first, "seed": rng.choice([0, rng.randrange(2 ** 31)]),
+    visits = [0] + list(range(1, len(bases))) + ([0] if more else [])
+    return {"kind": "run", "base": base, "more_bases": more, "visits": visits, "planned": planned,
+            "option": opt, "s0": s0s[0], "s0s": s0s, "derive_first": derive_first, "seed": rng.choice([0, rng.randrange(2 ** 31)]),
             "natural_cap": 40, "ms_abs": rng.sample([0, 1, 2, 3, 4, 6], 3), "ms_rel": [-1, 0, 1, 2, 3, 5]}
 
 
@@ -343,7 +383,10 @@ def gen_smdp(rng, tier):
     T = base["tables"]
     n = T["n"]
     nopt = rng.choice([0, 1, 2, 2, 3])
-    options = [gen_option(rng, T, rng.choice([2, 3, 5, 8, 15, 30, 40, 40]), term_p=rng.choice([.25, .4, .6])) for _ in range(nopt)]
+    # the SAME option objects are afterwards used inside a second / third semi-MDP over ANOTHER base MDP
+    more = gen_more_bases(rng, base, rng.choice([1, 1, 2]), list_actions=include) if (nopt and rng.random() < .5) else []
+    M = merged_tables([base] + more)
+    options = [gen_option(rng, M, rng.choice([2, 3, 5, 8, 15, 30, 40, 40]), term_p=rng.choice([.25, .4, .6])) for _ in range(nopt)]
     s0 = rng.randrange(n)
     for o in options:
         r = rng.random()
@@ -358,12 +401,17 @@ def gen_smdp(rng, tier):
         others = [x for x in range(n) if x != s0]
         if not any(o["terminal"]) and others and rng.random() < .8:
             o["terminal"][rng.choice(others)] = True
-    queries = [["opt", i, s0] for i in range(nopt)] + [["prim", a, s0] for a in range(T["nA"])]
+    queries = [["opt", i, s0, 0] for i in range(nopt)] + [["prim", a, s0, 0] for a in range(T["nA"])]
     # the SAME semi-MDP and option objects queried again from another state
     if nopt and n > 1:
         s1 = rng.choice([x for x in range(n) if x != s0])
-        queries += [["opt", rng.randrange(nopt), s1], ["prim", rng.randrange(T["nA"]), s1]]
-    return {"kind": "smdp", "base": base, "options": options, "n": rng.randint(1, 20), "include": include,
+        queries += [["opt", rng.randrange(nopt), s1, 0], ["prim", rng.randrange(T["nA"]), s1, 0]]
+    for j, b_ in enumerate(more):
+        sj = rng.randrange(b_["tables"]["n"])
+        queries += [["opt", i, sj, j + 1] for i in range(nopt)] + [["prim", rng.randrange(T["nA"]), sj, j + 1]]
+    if more:
+        queries += [["opt", rng.randrange(nopt), s0, 0]]      # and back on the first base
+    return {"kind": "smdp", "base": base, "more_bases": more, "options": options, "n": rng.randint(1, 20), "include": include,
             "seed": rng.choice([None, None, 0, rng.randrange(2 ** 31), rng.randrange(100)]), "global_seed": rng.randrange(2 ** 31),
             "s": s0, "queries": queries}
 
@@ -740,9 +788,9 @@ class Checker:
         stp, fin = x
         return ([(s, a, ns, float(r)) for s, a, ns, r in stp], fin)
 
-    def property_sim(self, case, sim, opt, ms):
-        """clauses of the property on one recorded roll-out (limit ms); returns a failing clause or None"""
-        T = eff_tables(case) if case["kind"] == "run" else case["base"]["tables"]
+    def property_sim(self, case, sim, opt, ms, bidx=0):
+        """clauses of the property on one recorded roll-out (limit ms) on base number bidx; returns a failing clause or None"""
+        T = eff_tables(case, bidx) if case["kind"] == "run" else case_bases(case)[bidx]["tables"]
         terminal = opt["terminal"]
         st, fin = self.sim_tuple(sim)
         states = [x[0] for x in st] + [fin]
@@ -753,7 +801,10 @@ class Checker:
                 return "roll-out continues from a state the option declares terminal"
             if r != fl(T["rew"][s][a][ns]):
                 return "step reward differs from the base MDP's reward"
-            if not any(e == a and F(p) > 0 for e, p in opt["policy"][s]):
+            if case.get("planned"):
+                if a not in T["actions"][s]:
+                    return "planned option policy chose an action that is not available"
+            elif not any(e == a and F(p) > 0 for e, p in opt["policy"][s]):
                 return "action outside the support of the option policy"
             if not any(e == ns and F(p) > 0 for e, p in T["trans"][s][a]):
                 return "successor outside the support of the base MDP's transition"
@@ -783,9 +834,16 @@ class Checker:
                     self.violation("C15:run_on:not-exactly-one-roll-out", detail, found=False)
                 continue
             inner = rec["inner"][0]
-            if case.get("derive_first"):
+            bidx = rec.get("bidx", 0)
+            if case.get("derive_first") and bidx == 0:
                 self.bump("run_on_derived_mdp")
-            clause = self.property_sim(case, inner, case["option"], ms)
+            if rec.get("visit", 0) > 0:
+                self.bump("run_same_option_on_another_base" if bidx else "run_same_option_back_on_first_base")
+            if case.get("planned"):
+                self.bump("run_planned_option")
+            clause = self.property_sim(case, inner, case["option"], ms, bidx)
+            if clause is None and (inner["states"][0] if inner["states"] else inner["final"]) != case["s0s"][bidx]:
+                clause = "roll-out does not start at the requested state"
             k = len(inner["states"])
             should_raise = (k + 1 >= ms)
             if clause is None:
@@ -827,10 +885,9 @@ class Checker:
 
     # ---- smdp -------------------------------------------------------------
     def check_smdp(self, case, res, vals, acts_val):
+        bases = case_bases(case)
         T = case["base"]["tables"]
         gamma = base_discount(case["base"])
-        exact = gamma in (F(0), F(1, 2), F(1))
-        tol = 0.0 if exact else 1e-9
         self.bump("smdp_cases")
         if fl(res["base_discount"]) != float(gamma):
             self.violation("C15:harness:base-discount", {"case": case}, found=False)
@@ -871,11 +928,19 @@ class Checker:
             self.bump("smdp_seed_0")
             if res["seed_after"] != 0:
                 self.violation("C15:smdp:seed-0-replaced", {"case": case, "seed_after": res["seed_after"]}, found=True, once_key="s0")
-        for (kind, idx, sid), qres, val in zip(case["queries"], res["queries"], vals):
+        for (kind, idx, sid, bidx), qres, val in zip(case["queries"], res["queries"], vals):
             self.bump("smdp_evaluations")
-            if sid != case["s"]:
+            T = bases[bidx]["tables"]
+            gamma = base_discount(bases[bidx])
+            exact = gamma in (F(0), F(1, 2), F(1))
+            tol = 0.0 if exact else 1e-9
+            if fl(res["base_discounts"][bidx]) != float(gamma):
+                self.violation("C15:harness:base-discount", {"case": case}, found=False)
+            if bidx:
+                self.bump("smdp_same_options_in_another_semimdp")
+            elif sid != case["s"]:
                 self.bump("smdp_second_state_queries")
-            detail = {"case": case, "query": [kind, idx, sid], "impl": qres}
+            detail = {"case": case, "query": [kind, idx, sid, bidx], "impl": qres}
             if isinstance(val, vlib.CoqError):
                 self.violation("C15:coq-evaluation-failed", {"case": case, "error": str(val)[:800]}, found=False)
                 continue
@@ -922,7 +987,7 @@ class Checker:
             sims = nstr["sims"]
             clause = None
             for sim in sims:
-                clause = clause or self.property_sim(case, sim, opt, opt["max_steps"])
+                clause = clause or self.property_sim(case, sim, opt, opt["max_steps"], bidx)
             raised = nstr.get("raised")
             hit = [len(sim["states"]) + 1 >= opt["max_steps"] for sim in sims]
             if clause is None:
@@ -1064,20 +1129,30 @@ def terms_for(case, res):
     if case["kind"] == "run":
         out = []
         df = case.get("derive_first")
+        bases = case_bases(case)
+        lits = [base_lit(bs, {"base_lists": (res.get("base_lists_all") or [None] * len(bases))[j]}) for j, bs in enumerate(bases)]
+        pol = case["option"]["policy"]
+        if case.get("planned"):      # the planner's policy is not known to the model: any action id counts as possible
+            pol = [[[a_, "1"] for a_ in range(nA)] for _ in pol]
         for rec in res["runs"]:
+            bidx = rec.get("bidx", 0)
+            b = lits[bidx]
             stream = stream_lit(rec["inner"][0]) if rec["inner"] else "[]"
             args = "%s %s %s %s %s" % (blist(case["option"]["terminal"]), nat(rec["max_steps"]), stream,
-                                       nat(case["s0"]), coqlist(dist_lit(r) for r in case["option"]["policy"]))
-            if df:
+                                       nat(case["s0s"][bidx]), coqlist(dist_lit(r) for r in pol))
+            if df and bidx == 0:
                 out.append("match augment %s (sel_ov %s [] [] %s) with Some o1 => run_dump (touch %s o1) %s | None => (2%%nat, None, None) end" % (
                     b, tables_lit(df["alt"]), coqlist(coqstr(k) for k in df["keys"]), nat(2 * n + 6), args))
             else:
                 out.append("run_dump %s %s" % (b, args))
         return out
     if case["kind"] == "smdp":
-        m = "(mkSMDP %s %s %s %s)" % (b, coqlist(opt_lit(o) for o in case["options"]), nat(case["n"]), vlib.b(case["include"]))
-        out = ["actions_dump %s %s %s" % (m, nat(case["s"]), nat(n))]
-        for (kind, idx, sid), qres in zip(case["queries"], res["queries"]):
+        bases = case_bases(case)
+        lits = [base_lit(bs, {"base_lists": (res.get("base_lists_all") or [None] * len(bases))[j]}) for j, bs in enumerate(bases)]
+        ms_ = ["(mkSMDP %s %s %s %s)" % (bl, coqlist(opt_lit(o) for o in case["options"]), nat(case["n"]), vlib.b(case["include"])) for bl in lits]
+        out = ["actions_dump %s %s %s" % (ms_[0], nat(case["s"]), nat(len(case["options"][0]["terminal"]) if case["options"] else n))]
+        for (kind, idx, sid, bidx), qres in zip(case["queries"], res["queries"]):
+            m = ms_[bidx]
             if kind == "prim":
                 out.append("smdp_dump %s %s (Prim %s) []" % (m, nat(sid), nat(idx)))
             else:
@@ -1094,8 +1169,8 @@ def run(ctx):
         cases = [ctx.replay_case["detail"]["case"]]
     else:
         k = 1 if tier == "quick" else 8
-        cases = [gen_augment(rng, tier) for _ in range(30 * k)] + [gen_subtask(rng, tier) for _ in range(60 * k)] + \
-                [gen_run(rng, tier) for _ in range(70 * k)] + [gen_smdp(rng, tier) for _ in range(70 * k)] + \
+        cases = [gen_augment(rng, tier) for _ in range(24 * k)] + [gen_subtask(rng, tier) for _ in range(60 * k)] + \
+                [gen_run(rng, tier) for _ in range(60 * k)] + [gen_smdp(rng, tier) for _ in range(70 * k)] + \
                 [gen_used(rng, tier) for _ in range(50 * k)]
     import time
     t0 = time.time()
@@ -1111,7 +1186,7 @@ def run(ctx):
         terms += ts
         owner += [i] * len(ts)
     t0 = time.time()
-    vals = ctx.coq(PRE, terms, shard=25 if tier == "quick" else 60)
+    vals = ctx.coq(PRE, terms, shard=16 if tier == "quick" else 60)
     t_coq = time.time() - t0
     vals = [v if isinstance(v, vlib.CoqError) else unq(v) for v in vals]
     per = {}
